@@ -158,6 +158,7 @@ class Interp:
     def __init__(self, repo="/repo", policy="uf", concrete=False, facts=None, prune_timeout_ms=200):
         self.repo = repo
         self.A = V.Arith(policy=policy, concrete=concrete)
+        self.A.choice_cls = Choice
         self.concrete = concrete
         self.modules = {}
         self.obligations = []
@@ -926,6 +927,7 @@ class Interp:
                                     raise _NoFast()
                                 pos_idx.append(j)
                             if aug is not None:
+                                self.accum_log.add((base.dtype, type(aug).__name__))
                                 v = self.binop(st, aug, self.read_cell(st, base, base.pos(pos_idx)), v)
                             if base.readonly:
                                 raise _NoFast()
